@@ -80,6 +80,8 @@ class Scenario:
                 )
         # step length from the initial total flux: the first step removes the fraction f0 of the feed
         self.f0 = gen.loguniform(rng, 0.1, 10.0) if coarse else min(gen.loguniform(rng, 1e-5, 0.03), 0.6 / self.n)
+        if not coarse and rng.random() < 0.08:
+            self.f0 = gen.loguniform(rng, 1e-12, 1e-8)  # a very fine discretisation: consecutive states differ in the last digits only
         if not coarse and not self.isothermal:
             self.f0 = min(self.f0, 0.004)
         self.dt = None
